@@ -9,7 +9,7 @@ CHECKS = {
     "C01": ("contracts on the real encoders/decoders + reference bracket decoder", "4.C01",
             "Every produced notation of every observed execution is decoded by an independent per-type stack decoder and compared with the input pair set; exhaustive over all pairings of N<=8 (quick) / N<=10 (thorough) plus tens of thousands of random/hostile structures (mixed-case sequences with '?' placeholders), balanced strings over 30 bracket types, multi-strand texts cut from one notation, nine-stem groups, and the per-strand texts the 3D mapping derives for hostile residue orders. Held-on-observed, not a proof."),
     "C02": ("contract on dot_bracket/convert_to_dot_bracket + exact branch-and-bound optimiser as reference model", "4.C02",
-            "The objective value of the notation the real MILP path returns is compared (integers) with an independent exact optimum per conflict component, for every pairing up to N and random multi-stem knots where FCFS is sub-optimal; the same pairing reached through other constructors (parsed from non-optimal notations / BPSEQ text), a structure with more than a thousand stems, and 30 mutually crossing stems through the MILP path."),
+            "The objective value of the notation the real MILP path returns is compared (integers) with an independent exact optimum per conflict component, for every pairing up to N and random multi-stem knots where FCFS is sub-optimal; the same pairing reached through other constructors (parsed from non-optimal notations / BPSEQ text), a structure with more than a thousand stems, and 30 mutually crossing stems through the MILP path; the 3D entry point with and without the all-dot-brackets option (same notation, member of the list)."),
     "C03": ("contract on annotator.find_pairs + dense O(n^2) H-bond/edge/torsion reference model with margins", "4.C03",
             "Every reported pair and every candidate edge combination of every observed execution (corpus, rigid/jitter/thinning perturbations, threshold-sweeping two-residue placements) is judged by an independent dense evaluator; quantities within 1e-6 of a threshold are undecided; all NMR models in one structure with an explicit model; texts with nearly superposed copies of residues, and texts whose PDB fields are filled to their edges, read by the real reader and compared with the annotation of the written atoms; threshold-grazing placements (one decision quantity bisected to +-2e-3..2e-5 of its limit, also 9000 A from the origin); more than 65 535 residues in one model; the chain table-level reader -> fit_to_pdb -> write_pdb -> residue-level reader before annotation; PDB texts whose serials pass 99999; mmCIF with a canonical sequence and uninformative component names; chain names differing by letter case; bases reduced to their three plane atoms; the pairs of the public entry points for a requested model of a multi-model structure."),
     "C04": ("contract on annotator.find_stackings + dense stacking reference model with margins", "4.C04",
@@ -41,7 +41,7 @@ CHECKS = {
     "C17": ("contract on find_clashes (all 32 option combinations) + O(n^2) reference + in-process CLI with parsed stdout/CSV", "4.C17",
             "Set equality of the clash list with a dense enumeration for every option combination on corpus, scaled/jittered and synthetic partial-occupancy structures; printed maxima (within a chain and between chains, chains in either order) and CSV rows compared with the list; residues sharing a position, superposed atoms; the tool's list against the library's list for the file read the default way; deposited files as they are (ligands outside polymer entities, no experiment categories, PDB format); the list for the written atoms (occupancy spellings); every atom listed with its own residue; CSV paths that already hold a result; library-converted mmCIF with insertion codes."),
     "C18": ("contracts on both torsion functions judging every call against an independent dihedral + constructive builder", "4.C18",
-            "Every call of either torsion implementation made by any workload (builder quadruples under rigid motions, reversal, mirroring; corpus chi/backbone torsions via Residue3D.chi, the annotator and Structure.torsion_angles) is compared with an IUPAC reference validated against a constructive builder in the same run; chi read after a full 2D analysis of the same object must equal the dihedral of the atoms' own coordinates; chi of re-emitted tables with shuffled item order, stripped bases, integer points, PDB fields filled to their edges, residues of unknown base type; bond angles to within 0.006 degrees of linear; every backbone torsion the table reports compared with the torsion over atoms bonded in sequence; components named after another base."),
+            "Every call of either torsion implementation made by any workload (builder quadruples under rigid motions, reversal, mirroring; corpus chi/backbone torsions via Residue3D.chi, the annotator and Structure.torsion_angles) is compared with an IUPAC reference validated against a constructive builder in the same run; chi read after a full 2D analysis of the same object must equal the dihedral of the atoms' own coordinates; chi of re-emitted tables with shuffled item order, stripped bases, integer points, PDB fields filled to their edges, residues of unknown base type; bond angles to within 0.006 degrees of linear; every backbone torsion the table reports compared with the torsion over atoms bonded in sequence; components named after another base; the tool's inter-stem table read back (torsions equal the library's, in (-180, 180])."),
     "C19": ("contracts on the FR3D/DSSR importers + regular-expression reference of the label language", "4.C19",
             "Label space exhaustive to length 4 (quick) / 6 over a reduced alphabet (thorough); generated listings and DSSR documents judged against a unit-id grammar and resolvable-name oracle; multi-model DSSR documents incl. model numbers that are not 1..n."),
     "C20": ("contracts on copy_from_to/replace_value + in-process CLI twin, frames compared by an independent CIF tokenizer", "4.C20",
